@@ -33,6 +33,11 @@ CHECKS = {
                   'genome placement and distance class gives that consensus, the right failure flag, warning and primary match; find_matches is confirmed with symbolic thresholds.',
              note='Trusted: CrossHair path exhaustion; concrete threshold patterns in the strict harness (matching with symbolic thresholds is decided separately); argmin contract stub.',
              ref='3/C10'),
+ 'C11': dict(engine='X', technique='CrossHair/z3-driven exhaustive case split over result-set shapes (optional parts present/absent) and pools of awkward text / float32 values; each cell runs the real CSV, JSON and archive exporters and reads the output back',
+             text='For every combination within the pools, the CSV has the documented header and one row per query whose cells equal the reported taxon / closest match / next taxon (empty when absent) '
+                  'and parses back; the JSON parses and carries the same label, taxa and closest-genome data; the archive read back against the same database equals the original including distances to the last bit.',
+             note='Bounded-exhaustive over finite pools (not all strings / floats).  Trusted: CrossHair path exhaustion; the stdlib csv/json readers used for parsing back.',
+             ref='3/C11'),
  'C13': dict(engine='X', technique='symbolic execution (CrossHair/z3) of the real calc_file_signatures with as_completed modelled as an arbitrary (symbolic) permutation and stub executors',
              text='For 1..4 (quick) / 5 (thorough) files, every completion permutation, every position of a failing file, every concurrency mode and executor ownership, '
                   'CrossHair confirms over all paths that entry i is the signature of file i, that failures propagate, and that executor lifetimes are respected.',
